@@ -7,26 +7,15 @@
 
 #define MON_NEEDLE_INDEX(n) ((n) == 0xED ? 0 : (n) == 0xFD ? 1 : (n) == 0xE3 ? 2 : 3)
 #define G_DIAG_ROOM (g_diag < (1u << 30) && g_wfail < (1u << 30))
+#define G_DIAG_ROOM_L3 (g_diag < (1u << 29) && g_wfail < (1u << 29))
 #define INDENT_BOUND (1 << 27)
-
-/* the token at cursor i is one the specification does not list (C09): NUL byte; outside quotes an
- * unassigned token, a crunched (fast) variable, a line-number form or extension token cut off by the
- * end of the line, an unassigned extension code, PDP11 0xC8 as last byte. */
-#define SPEC_EXT_VALID(cl, e) ((cl) == CL_C6 ? SPEC_C6V[e] : (cl) == CL_C7 ? SPEC_C7V[e] : SPEC_C8V[e])
-#define SPEC_TOKEN_BAD_AT(i, q) \
-  (mon_data[i] == 0 || \
-   (!(q) && (SPEC_CLASS[mon_data[i]] == CL_INVALID || SPEC_CLASS[mon_data[i]] == CL_FASTVAR || \
-             (SPEC_CLASS[mon_data[i]] == CL_LINENUM && !((i) + 3 < mon_len)) || \
-             (SPEC_CLASS[mon_data[i]] == CL_PDP && !((i) + 1 < mon_len)) || \
-             ((SPEC_CLASS[mon_data[i]] == CL_C6 || SPEC_CLASS[mon_data[i]] == CL_C7 || SPEC_CLASS[mon_data[i]] == CL_C8) && \
-              (!((i) + 1 < mon_len) || !SPEC_EXT_VALID(SPEC_CLASS[mon_data[i]], mon_data[((i) + 1 < mon_len) ? (i) + 1 : (i)]))))))
 
 static bool print_target_line_number(unsigned char b1, unsigned char b2, unsigned char b3)
 __CPROVER_requires(mon_on && mon_phase == PH_TOKENS && !mon_q && mon_i + 3 < mon_len)
 __CPROVER_requires(SPEC_CLASS[mon_data[mon_i]] == CL_LINENUM)
 __CPROVER_requires(b1 == mon_data[mon_i + 1] && b2 == mon_data[mon_i + 2] && b3 == mon_data[mon_i + 3])
 __CPROVER_requires(G_DIAG_ROOM)
-__CPROVER_assigns(mon_phase, mon_i, mon_q, g_wfail, g_diag, g_out_events, g_lines_listed)
+__CPROVER_assigns(G)
 __CPROVER_ensures(__CPROVER_return_value ==> (mon_phase == PH_TOKENS && mon_i == __CPROVER_old(mon_i) + 4 && !mon_q))
 __CPROVER_ensures(__CPROVER_return_value ==> (g_wfail == __CPROVER_old(g_wfail) && g_diag == __CPROVER_old(g_diag)))
 __CPROVER_ensures(!__CPROVER_return_value ==> (g_wfail > __CPROVER_old(g_wfail) && g_diag > __CPROVER_old(g_diag) && mon_i == __CPROVER_old(mon_i)))
@@ -49,7 +38,7 @@ __CPROVER_requires(__CPROVER_is_fresh(input, sizeof(*input)) && __CPROVER_is_fre
 __CPROVER_requires(*input == mon_data + mon_i + 1 && *len == mon_len - mon_i - 1)
 __CPROVER_requires(m == &SPEC_MAP && G_DIAG_ROOM)
 __CPROVER_requires(0 <= file_pos && file_pos <= (1l << 41))
-__CPROVER_assigns(*input, *len, mon_phase, mon_i, mon_q, g_wfail, g_diag, g_out_events, g_lines_listed)
+__CPROVER_assigns(*input, *len, G)
 /* success: exactly the bytes of one token were consumed and exactly its expansion was listed
    (the event itself is checked by the monitor when it happens) */
 __CPROVER_ensures(__CPROVER_return_value ==>
@@ -63,7 +52,7 @@ __CPROVER_ensures(__CPROVER_return_value ==>
 __CPROVER_ensures(!__CPROVER_return_value ==> g_diag > __CPROVER_old(g_diag))
 __CPROVER_ensures((!__CPROVER_return_value && g_wfail == __CPROVER_old(g_wfail)) ==>
                   (mon_i == __CPROVER_old(mon_i) && g_out_events == __CPROVER_old(g_out_events) &&
-                   mon_phase == PH_TOKENS && !mon_q && SPEC_TOKEN_BAD_AT(mon_i, 0)))
+                   mon_phase == PH_TOKENS && !mon_q && mon_reject_ok && SPEC_TOKEN_BAD_AT(mon_i, 0)))
 /* C03 completeness: a token the specification lists is never rejected */
 __CPROVER_ensures((!__CPROVER_return_value) ==> (g_wfail > __CPROVER_old(g_wfail) || SPEC_TOKEN_BAD_AT(__CPROVER_old(mon_i), 0)))
 __CPROVER_ensures(g_lines_listed == __CPROVER_old(g_lines_listed))
@@ -78,8 +67,7 @@ __CPROVER_requires(line_hi == mon_hi && line_lo == mon_lo && orig_len == mon_len
 __CPROVER_requires(data == (const char *)mon_data && m == mon_map && m == &SPEC_MAP && listo == mon_listo)
 __CPROVER_requires(__CPROVER_is_fresh(indent, sizeof(*indent)) && *indent == mon_indent_in)
 __CPROVER_requires(-INDENT_BOUND <= mon_indent_in && mon_indent_in <= INDENT_BOUND)
-__CPROVER_requires(mon_cnt[0][mon_len] <= mon_len && mon_cnt[1][mon_len] <= mon_len &&
-                   mon_cnt[2][mon_len] <= mon_len && mon_cnt[3][mon_len] <= mon_len)
+__CPROVER_requires(mon_c0 <= mon_len && mon_c1 <= mon_len && mon_c2 <= mon_len && mon_c3 <= mon_len)
 __CPROVER_requires(0 <= orig_file_pos && orig_file_pos <= (1l << 40))
 __CPROVER_requires(G_DIAG_ROOM && g_lines_listed < (1ul << 39))
 /* C09 "never invents text": the line handed over is the one the framing automaton has just
@@ -88,10 +76,10 @@ __CPROVER_requires(fmon_on ==> (fmon_phase == FPH_LINE_READY && fmon_lines == g_
                                 line_hi == fmon_hi && line_lo == fmon_lo && orig_len == fmon_blen &&
                                 (const void *)data == g_last_fread_dst && g_last_fread_n >= orig_len &&
                                 (fmon_gk < orig_len ==> (unsigned char)data[fmon_gk] == g_file[fmon_body + fmon_gk])))
-__CPROVER_assigns(*indent, mon_phase, mon_i, mon_q, g_wfail, g_diag, g_out_events, g_lines_listed)
+__CPROVER_assigns(*indent, G)
 /* C03: returns true only after the monitor has seen the complete listing of the line */
 __CPROVER_ensures(__CPROVER_return_value ==> (mon_phase == PH_DONE && mon_i == mon_len))
-__CPROVER_ensures(__CPROVER_return_value ==> *indent == MON_INDENT_OUT)
+__CPROVER_ensures(__CPROVER_return_value ==> (*indent == MON_INDENT_OUT && mon_indent_run == MON_INDENT_OUT))
 /* C11: success implies no write failed during the call */
 __CPROVER_ensures(__CPROVER_return_value ==> g_wfail == __CPROVER_old(g_wfail))
 __CPROVER_ensures(__CPROVER_return_value ==> g_diag == __CPROVER_old(g_diag))
@@ -100,10 +88,44 @@ __CPROVER_ensures(!__CPROVER_return_value ==> g_diag > __CPROVER_old(g_diag))
 /* C03 completeness / C09: without a write failure, failure means the token under the monitor's
    cursor is one the specification rejects */
 __CPROVER_ensures((!__CPROVER_return_value && g_wfail == __CPROVER_old(g_wfail)) ==>
-                  (mon_phase == PH_TOKENS && mon_i < mon_len && SPEC_TOKEN_BAD_AT(mon_i, mon_q)))
+                  (mon_phase == PH_TOKENS && mon_i < mon_len && mon_reject_ok))
 __CPROVER_ensures(__CPROVER_return_value ==> g_lines_listed == __CPROVER_old(g_lines_listed) + 1)
 __CPROVER_ensures(g_lines_listed == __CPROVER_old(g_lines_listed) || g_lines_listed == __CPROVER_old(g_lines_listed) + 1)
 __CPROVER_ensures(*indent >= __CPROVER_old(*indent) - 4 * (int)orig_len && *indent <= __CPROVER_old(*indent) + 4 * (int)orig_len)
+;
+
+
+/* ---- L3: framing (C03 framing lemma, C09 i-iii, C11) --------------------------------------- */
+#define L3_GHOST_FRAME G, GL, GF
+
+#define L3_REQUIRES \
+  __CPROVER_requires(fmon_on && mon_on && g_pos == 0 && g_len <= VERIF_FILE_MAX) \
+  __CPROVER_requires(fmon_phase == FPH_START && fmon_lines == g_lines_listed && g_lines_listed < (1ul << 38)) \
+  __CPROVER_requires(m == &SPEC_MAP && mon_map == m && mon_listo == listo && mon_indent_run == 0) \
+  __CPROVER_requires(G_DIAG_ROOM_L3 && !g_read_error_happened)
+
+#define L3_ENSURES \
+  /* C09(i): success only on a complete, well-framed program, every framed line listed once */ \
+  __CPROVER_ensures(__CPROVER_return_value ==> (fmon_phase == FPH_DONE && g_lines_listed == fmon_lines)) \
+  /* C11 */ \
+  __CPROVER_ensures(__CPROVER_return_value ==> g_wfail == __CPROVER_old(g_wfail)) \
+  /* C08/C09: failure comes with a diagnostic */ \
+  __CPROVER_ensures(!__CPROVER_return_value ==> g_diag > __CPROVER_old(g_diag)) \
+  /* C03: a well-formed program is never rejected (absent I/O errors) */ \
+  __CPROVER_ensures((!__CPROVER_return_value && g_wfail == __CPROVER_old(g_wfail) && !g_read_error_happened) ==> \
+                    (fmon_phase == FPH_BAD || \
+                     (fmon_phase == FPH_LINE_READY && mon_reject_ok)))
+
+bool decode_big_endian_program(FILE *f, const char *filename, const struct expansion_map *m, int listo)
+L3_REQUIRES
+__CPROVER_assigns(L3_GHOST_FRAME)
+L3_ENSURES
+;
+
+bool decode_little_endian_program(FILE *f, const char *filename, const struct expansion_map *m, int listo)
+L3_REQUIRES
+__CPROVER_assigns(L3_GHOST_FRAME)
+L3_ENSURES
 ;
 
 #endif
